@@ -24,7 +24,9 @@ RULE = ("grid: every pair of (required, defaulted, *args, **kwargs) signatures w
         "aggregation stream (each case preceded by a random set of single-name look-ups on the interface, its "
         "base and a derived interface: [], in, get, queryDescriptionFor, existing and unknown names; ~12% of the "
         "descriptions stored under a key that is not their __name__: Attribute('word'), IOther['m'], Method('m'), "
-        "a = b = Attribute(doc), with or without something under that other name on the candidate; a dedicated "
+        "a = b = Attribute(doc), with or without something under that other name on the candidate; a 'wrapped' stream "
+        "of methods / classmethods / staticmethods decorated with functools.wraps (one or two levels) whose wrapper "
+        "takes the same / more / fewer arguments than the wrapped function, judged by what the wrapper binds; a dedicated "
         "'alias' stream where most are; a 'seq' stream of 2-3 verifications in one process sharing function objects "
         "as instance-dict function / class-body method under verifyObject / verifyClass with __defaults__ reassigned "
         "in between, every verification judged on its own): "
@@ -119,6 +121,9 @@ ATTR_OF = {
     "method": ("method", "function"),
     "classmethod": ("method", "method"),
     "staticmethod": ("function", "function"),
+    "wrapped_method": ("method", "function"),        # functools.wraps(inner)(wrapper): callers reach the wrapper
+    "wrapped_classmethod": ("method", "method"),
+    "wrapped_staticmethod": ("function", "function"),
     "instfunc": ("function", None),
     "poolfunc_inst": ("function", None),       # a function object shared with other verifications, in the instance dict
     "poolfunc_method": ("method", "function"),  # the same function object in a class body (its first parameter is self)
@@ -131,7 +136,7 @@ ATTR_OF = {
     "other": ("other", "other"),
     "value": ("other", None),
 }
-FIRST = {"method": "self", "classmethod": "cls"}
+FIRST = {"method": "self", "classmethod": "cls", "wrapped_method": "self", "wrapped_classmethod": "cls"}
 
 
 def _method_elem(isig, kind, msig, level="own"):
@@ -180,7 +185,7 @@ def _agg_case(rng):
         level = rng.choice(["base", "own", "own", "override"])
         is_attr = rng.random() < 0.3
         kinds = [k for k, v in ATTR_OF.items() if v[1 if on_class else 0] is not None]
-        kinds = [k for k in kinds if not k.startswith("poolfunc")]
+        kinds = [k for k in kinds if not k.startswith("poolfunc") and not k.startswith("wrapped")]
         if cand == "class":
             kinds.remove("staticmethod")        # verifyClass strips a parameter of staticmethods: unjudged stream
         weights = {"missing": 5, "method": 8, "classmethod": 2, "instfunc": 3, "staticmethod": 1}
@@ -276,6 +281,39 @@ def _alias_case(rng):
     return c
 
 
+def _near(rng, sg):
+    r, o, va, kw = sg
+    return rng.choice([sg, (min(3, r + 1), o, va, kw), (max(0, r - 1), o, va, kw), (r, max(0, o - 1), va, kw),
+                       (r, min(3, o + 1), va, kw), (r, o, 1, 1), (0, 0, 1, 1), (0, 0, 0, 0), (r, o, 0, 0)])
+
+
+def _wrapped_case(rng):
+    """methods / classmethods / staticmethods decorated with functools.wraps (one decorator or a chain of two)
+    whose wrapper takes the same, more (*args, **kw) or fewer arguments than what it wraps: the contract is
+    about the callable callers reach, i.e. the outermost wrapper"""
+    cand = rng.choice(["instance", "instance", "class"])
+    elems = []
+    for _ in range(rng.randint(1, 3)):
+        kinds = ["wrapped_method", "wrapped_method", "wrapped_classmethod"] + (["wrapped_staticmethod"] if cand == "instance" else [])
+        kind = rng.choice(kinds)
+        isig = rng.choice(ALL_SIGS)
+        style = rng.random()
+        if style < 0.4:        # the wrapped function fits the interface, the wrapper may not
+            inner, outer = isig, _near(rng, isig)
+        elif style < 0.8:      # the wrapper fits, the wrapped function may not
+            outer, inner = isig, _near(rng, isig)
+        else:
+            outer, inner = rng.choice(ALL_SIGS), rng.choice(ALL_SIGS)
+        chain = [params(inner, FIRST.get(kind))]
+        if rng.random() < 0.3:
+            chain.append(params(_near(rng, inner), FIRST.get(kind)))
+        el = _method_elem(isig, kind, outer, rng.choice(["base", "own"]))
+        el["impl"]["inner"] = chain
+        elems.append(el)
+    return {"stream": "wrapped", "vt": "c" if cand == "class" else "o", "tentative": rng.random() < 0.2,
+            "declare": rng.choice([0, 1, 1, 1]), "cand": cand, "elems": elems}
+
+
 POOL_SIGS = [sg for sg in ALL_SIGS if (sg[0] + sg[1] >= 1 or sg[2]) and sg[0] + sg[1] <= 4]
 
 
@@ -360,6 +398,8 @@ def generate(run, tier):
     cases = _grid() + [_agg_case(rng) for _ in range(n)]
     rng = run.rng("alias")
     cases += [_alias_case(rng) for _ in range(300 if tier == "quick" else 4000)]
+    rng = run.rng("wrapped")
+    cases += [_wrapped_case(rng) for _ in range(400 if tier == "quick" else 5000)]
     rng = run.rng("seq")
     for _ in range(250 if tier == "quick" else 3000):
         cases += _seq_cases(rng)
@@ -498,8 +538,9 @@ def replay_text(case, obs, mode):
                 body.append("    def n%d(%s): pass" % (i, el["base_params"]) if "base_params" in el
                             else "    n%d = Attribute('b')" % i)
         im = el["impl"]
-        cls.append("    # n%d: implementation kind %s(%s)%s%s" % (
+        cls.append("    # n%d: implementation kind %s(%s)%s%s%s" % (
             i, im["kind"], im.get("params", ""),
+            "; functools.wraps around (innermost first) %r" % (im["inner"],) if "inner" in im else "",
             "; the description is stored under this key but its __name__ comes from %r" % (el["alias"],) if "alias" in el else "",
             "; the candidate also has %r under that name" % (el["alias_impl"]["kind"],) if "alias_impl" in el else ""))
     return ("# PURE_PYTHON=%s; candidate kind %s, declare=%s, tentative=%s, verify%s\n"
